@@ -249,8 +249,26 @@ def extract_fn(unit: str, file: str, item: str, mode: str, contracts, canary: bo
         info.rewrites = ['R7:attrs-filtered']
         return segs, info
 
-    if it.body_open_tok < 0:
+    if it.body_open_tok < 0 and mode != 'decl':
         raise LostAnchor('%s has no body' % fn_label)
+    if mode == 'decl':
+        # trait method declaration: signature + contract + ';'
+        semi = sf.text.rfind(';', it.start, it.end)
+        edits0: List[Tuple[int, int, str, dict]] = []
+        if c and c.ret:
+            m = re.search(r'->\s*', sf.text[it.start:semi])
+            if not m:
+                raise LostAnchor('%s: @ret but no return type' % fn_label)
+            a0 = it.start + m.end()
+            edits0.append((a0, a0, '(%s: ' % c.ret, {'kind': 'rewrite', 'rule': 'A1:ret'}))
+            edits0.append((semi, semi, ')', {'kind': 'rewrite', 'rule': 'A1:ret'}))
+        segs = _apply_edits(sf.text[it.start:semi], it.start, edits0, repo_origin)
+        if c and c.sig.clauses:
+            segs.append(Seg('\n', {'kind': 'glue'}))
+            segs += _render_block(c.sig, '    ', fn_label)
+            info.clauses += c.sig.clauses
+        segs.append(Seg(';\n', {'kind': 'glue'}))
+        return segs, info
 
     edits: List[Tuple[int, int, str, dict]] = []
 
@@ -527,7 +545,7 @@ def assemble(unit_path: str, contracts=None, canary: bool = False) -> Assembled:
                 p = os.path.join(VERIF, rest)
                 includes.append(rest)
                 process(rest, open(p).read(), depth + 1)
-            elif d in ('body', 'stub', 'item'):
+            elif d in ('body', 'stub', 'item', 'decl'):
                 opts = {}
                 mm = re.match(r'^(.*?)\s*::\s*(.*?)(\s+\w+=.*)?$', rest)
                 file, item = mm.group(1).strip(), mm.group(2).strip()
